@@ -895,6 +895,16 @@ fn util_conversions(_tier: &str) -> Result<String, String> {
         }));
         match r { Err(_) => { fails.entry(format!("a {fname} {sname} panic")).or_insert_with(|| format!("generic alignment io [{fname}, {sname}]: PANICS")); } Ok(Err(e)) => { fails.entry(format!("a {fname} {sname} {}", &e[..e.len().min(30)])).or_insert_with(|| format!("generic alignment io [{fname}, {sname}]: {e}")); } Ok(Ok(())) => {} }
     } }
+    // empty files: an EMPTY header and no records (F63)
+    for (fname, fmt, cm) in &afmts { cases += 1;
+        let r = std::panic::catch_unwind(std::panic::AssertUnwindSafe(|| -> Result<(), String> {
+            let empty = sam::Header::default(); let mut buf = Vec::new();
+            { let mut w = alignment::io::writer::Builder::default().set_format(*fmt).set_compression_method(*cm).set_reference_sequence_repository(repo.clone()).build_from_writer(&mut buf).map_err(|e| format!("build writer: {e}"))?; w.write_header(&empty).map_err(|e| format!("write_header: {e}"))?; w.finish(&empty).map_err(|e| format!("finish: {e}"))?; }
+            let (h, back) = aread(&buf)?;
+            if !h.reference_sequences().is_empty() || !back.is_empty() { return Err(format!("an empty file reads back with {} reference sequences and {} records", h.reference_sequences().len(), back.len())); }
+            Ok(()) }));
+        match r { Err(_) => { fails.entry(format!("a {fname} empty panic")).or_insert_with(|| format!("generic alignment io [{fname}, empty header and no records]: PANICS")); } Ok(Err(e)) => { fails.entry(format!("a {fname} empty")).or_insert_with(|| format!("generic alignment io [{fname}, empty header and no records]: {e}")); } Ok(Ok(())) => {} }
+    }
     // conversions: reader of A piped into writer of B
     for by_record in [false, true] { for (an, af, ac) in &afmts { for (bn, bf, bc) in &afmts { if an == bn { continue; }
         let api = if by_record { "read_record" } else { "records()" };
